@@ -3,7 +3,7 @@ from harness import core
 from harness.props import sqlcommon as SC
 
 PID = 'C03'
-THEOREMS = []
+THEOREMS = ['PyDBML.C03.script_structure', 'PyDBML.C03.column_pk_component', 'PyDBML.C03.default_component', 'PyDBML.C15.sql_column_ignores_props']
 MODULES = ['PyDBMLProofs.Props.C03']
 
 
